@@ -81,3 +81,9 @@ Check (C07_removed_not_reloadable :
   forall st sid i f st', Inv st -> fget i (st_fabs st) = Some f ->
     step st (ORemove sid i) = (st', StOk) ->
     fget i (st_kvfabs st') = None /\ (forall r, In r (st_kvrecs st') -> r_fab r <> i)).
+Check (C07_late_subscription_purged_due :
+  forall st sid, Inv st -> nothing_left_behind (fst (step st (OSubscribeDue sid)))).
+Check (C07_late_subscription_purged_remove :
+  forall st sid i, Inv st -> nothing_left_behind (fst (step st (OSubscribeRemove sid i)))).
+Check (C07_purge_drops_fabricless :
+  forall st u, In u (st_subs (purge st)) -> has_fab (st_fabs st) (u_fab u) = true).
